@@ -222,6 +222,7 @@ func cmdCheck(args []string) {
 	}
 	var frs []*FuncResult
 	var toolErrs []string
+	var staleClosures []string
 	done := map[string]bool{}
 	for i := 0; i < len(names); i++ {
 		n := names[i]
@@ -231,6 +232,13 @@ func cmdCheck(args []string) {
 		done[n] = true
 		fr, err := e.verifyFunc(n)
 		if err != nil {
+			if i := strings.Index(n, "$"); i > 0 && e.funcs[n] == nil && e.funcs[n[:i]] != nil {
+				// a function literal the contract file annotates no longer exists although its enclosing
+				// function does (the literal was moved or merged): there is nothing of that name to verify;
+				// the code that replaced it is verified where it is called or inlined
+				staleClosures = append(staleClosures, n)
+				continue
+			}
 			toolErrs = append(toolErrs, err.Error())
 			continue
 		}
@@ -380,6 +388,9 @@ func cmdCheck(args []string) {
 	}
 	for _, a := range sortedKeys(assume) {
 		trusted = append(trusted, a)
+	}
+	for _, sc := range staleClosures {
+		trusted = append(trusted, "contract of a function literal that no longer exists was skipped: "+sc)
 	}
 	ev := map[string]interface{}{
 		"property_id": *prop, "tier": *tier, "seed": seed, "level": "proof",
